@@ -6,6 +6,8 @@ import (
 	"encoding/json"
 	"flag"
 	"fmt"
+	"io"
+	"log"
 	"os"
 	"path/filepath"
 	"reflect"
@@ -13,10 +15,12 @@ import (
 	"sort"
 	"strings"
 
+	"github.com/cloudwego/thriftgo/args"
 	"github.com/cloudwego/thriftgo/generator/backend"
 	"github.com/cloudwego/thriftgo/generator/golang"
 	"github.com/cloudwego/thriftgo/generator/golang/styles"
 	"github.com/cloudwego/thriftgo/generator/golang/templates"
+	"github.com/cloudwego/thriftgo/plugin"
 
 	"verifharness/internal/vl"
 )
@@ -147,6 +151,48 @@ func opLine(args []string) string {
 	return "H " + fmt.Sprint(len(args)) + " " + strings.Join(parts, " ")
 }
 
+// runCmd takes the command-line path: `thriftgo -g go:<opts> x.thrift` parsed by args.Arguments, Targets()
+// (ParseCompactArguments + checkOptions), plugin.Pack, and the backend's HandleOptions on a fresh CodeUtils in the
+// same process (the naming-style objects are shared with checkOptions' scratch run, as in the compiler).
+func runCmd(g string) (line string, cu *golang.CodeUtils) {
+	resetStyles()
+	log.SetOutput(io.Discard)
+	var params []string
+	var err error
+	func() {
+		defer func() {
+			if r := recover(); r != nil {
+				err = fmt.Errorf("panic: %v", r)
+				line = "panic"
+			}
+		}()
+		var a args.Arguments
+		if err = a.Parse([]string{"thriftgo", "-g", g, "x.thrift"}); err != nil {
+			return
+		}
+		specs, e := a.Targets()
+		if e != nil {
+			err = e
+			return
+		}
+		if len(specs) != 1 || specs[0].Language != "go" {
+			err = fmt.Errorf("targets: %d", len(specs))
+			return
+		}
+		params = plugin.Pack(specs[0].Options)
+		cu = golang.NewCodeUtils(backend.DummyLogFunc())
+		err = cu.HandleOptions(params)
+	}()
+	if line == "panic" {
+		return
+	}
+	if err != nil {
+		return "err", cu
+	}
+	return fmt.Sprintf("ok %s %s %s %s %s %s", featBits(cu.Features()), vl.Hex(cu.NamingStyle().Name()),
+		vl.B(effInit(cu)), vl.Hex(cu.GetPackagePrefix()), vl.Hex(cu.Template()), replDump(cu)), cu
+}
+
 // ---------------------------------------------------------------- README
 
 type docRow struct {
@@ -272,6 +318,20 @@ func extract(repo string) error {
 		idx("gen_deep_equal"), idx("apache_warning"), idx("apache_adaptor"), idx("with_field_mask"), idx("with_reflection"))
 	p("  iSnake := %d, iLowerCamel := %d, iGenJSON := %d, iAlwaysJSON := %d }\n\n",
 		idx("snake_style_json_tag"), idx("lower_camel_style_json_tag"), idx("gen_json_tag"), idx("always_gen_json_tag"))
+	// the command-line path (args.checkOptions): the literals it compares with and appends, read from the source
+	asrc, err := os.ReadFile(filepath.Join(repo, "args", "args.go"))
+	if err != nil {
+		return err
+	}
+	mName := regexp.MustCompile(`opt\.Name == "([a-z_]+)"`).FindSubmatch(asrc)
+	mApp := regexp.MustCompile(`append\(opts, plugin\.Option\{Name: "([a-z_]+)", Desc: "([a-z_]+)"\}\)`).FindSubmatch(asrc)
+	if mName == nil || mApp == nil || string(mName[1]) != string(mApp[1]) || !strings.Contains(string(asrc), "cu.Features().EnableNestedStruct") {
+		return fmt.Errorf("args.checkOptions: the nested-struct template adaptation does not have the expected shape")
+	}
+	if string(mApp[2]) != "slim" {
+		return fmt.Errorf("args.checkOptions appends template %q, the model knows slim", mApp[2])
+	}
+	p("def cmdEnv : CmdEnv := { iNested := %d, templateName := %s }\n\n", idx("enable_nested_struct"), vl.LeanBytes(string(mName[1])))
 	p("/-- rows of the README option table: name, documented boolean default (none for valued options) -/\n")
 	p("def documented : List (Bytes × Option Bool) := [\n")
 	for i, r := range rows {
@@ -302,6 +362,7 @@ type gen struct {
 }
 
 func (g *gen) emit(args []string, class string) {
+	g.emitCmd(args, class)
 	impl, cu := runImpl(args)
 	g.out.Case(opLine(args), impl, true)
 	g.out.Count("class:" + class)
@@ -310,7 +371,7 @@ func (g *gen) emit(args []string, class string) {
 	if g.out.Evals%997 == 1 {
 		g.out.Sample(map[string]interface{}{"args": args, "impl": impl})
 	}
-	if f := g.oracle(args, impl, cu); f != nil {
+	if f := g.oracle(args, impl, cu, false); f != nil {
 		// shrink: drop options while the same kind of failure persists
 		cur := append([]string(nil), args...)
 		for changed := true; changed; {
@@ -318,7 +379,35 @@ func (g *gen) emit(args []string, class string) {
 			for i := range cur {
 				cand := append(append([]string(nil), cur[:i]...), cur[i+1:]...)
 				ci, ccu := runImpl(cand)
-				if f2 := g.oracle(cand, ci, ccu); f2 != nil {
+				if f2 := g.oracle(cand, ci, ccu, false); f2 != nil {
+					cur, f, changed = cand, f2, true
+					break
+				}
+			}
+		}
+		g.out.Fail(*f)
+	}
+}
+
+// emitCmd: the same list through the command line (`-g go:a,b,c`): op `A <hex of the text after "go:">`.
+func (g *gen) emitCmd(args []string, class string) {
+	text := strings.Join(args, ",")
+	impl, cu := runCmd("go:" + text)
+	g.out.Case("A "+vl.Hex(text), impl, true)
+	g.out.Count("class:cmd-" + class)
+	g.out.Count("cmd-outcome:" + strings.SplitN(impl, " ", 2)[0])
+	if g.out.Evals%997 == 2 {
+		g.out.Sample(map[string]interface{}{"g": "go:" + text, "impl": impl})
+	}
+	eff := func(l []string) []string { return strings.Split(strings.Join(l, ","), ",") } // what the split on ',' makes of it
+	if f := g.oracle(eff(args), impl, cu, true); f != nil {
+		cur := append([]string(nil), args...)
+		for changed := true; changed && len(cur) > 1; {
+			changed = false
+			for i := range cur {
+				cand := append(append([]string(nil), cur[:i]...), cur[i+1:]...)
+				ci, ccu := runCmd("go:" + strings.Join(cand, ","))
+				if f2 := g.oracle(eff(cand), ci, ccu, true); f2 != nil {
 					cur, f, changed = cand, f2, true
 					break
 				}
@@ -333,7 +422,9 @@ func (g *gen) emit(args []string, class string) {
 // last setting given for its own name, else its documented default (README), the naming style and the
 // initialisms switch stay at their documented defaults unless their own options were given; the only
 // cross effects are slim => no deep-equal and the documented invalid combinations => error.
-func (g *gen) oracle(args []string, impl string, cu *golang.CodeUtils) (res *vl.OracleFail) {
+// With cmd, args are the options as written after `-g go:` and the documented implication of args.checkOptions
+// applies: nested structs switch to the slim template unless a template option is given.
+func (g *gen) oracle(args []string, impl string, cu *golang.CodeUtils, cmd bool) (res *vl.OracleFail) {
 	fail := func(f vl.OracleFail) {
 		if res == nil {
 			res = &f
@@ -346,8 +437,10 @@ func (g *gen) oracle(args []string, impl string, cu *golang.CodeUtils) (res *vl.
 	last := map[string]bool{}
 	mustReject := ""
 	tpl := "default"
+	tplGiven := false
 	style := "thriftgo"
 	ignoreInit := false
+	repl := map[string]string{}
 	for _, a := range args {
 		parts := strings.SplitN(a, "=", 2)
 		name, val := parts[0], ""
@@ -360,6 +453,7 @@ func (g *gen) oracle(args []string, impl string, cu *golang.CodeUtils) (res *vl.
 		}
 		switch name {
 		case "template":
+			tplGiven = true
 			if val != "slim" && val != "raw_struct" && val != "default" {
 				if mustReject == "" {
 					mustReject = "unknown template " + val
@@ -377,13 +471,19 @@ func (g *gen) oracle(args []string, impl string, cu *golang.CodeUtils) (res *vl.
 			}
 			style = val
 			continue
-		case "thrift_import_path", "package_prefix":
+		case "thrift_import_path":
+			repl[golang.DefaultThriftLib] = val
+			continue
+		case "package_prefix":
 			continue
 		case "use_package":
 			if !strings.Contains(val, "=") {
 				if mustReject == "" {
 					mustReject = "use_package without '='"
 				}
+			} else if mustReject == "" {
+				kv := strings.SplitN(val, "=", 2)
+				repl[kv[0]] = kv[1]
 			}
 			continue
 		}
@@ -418,20 +518,28 @@ func (g *gen) oracle(args []string, impl string, cu *golang.CodeUtils) (res *vl.
 	invalid := (get("apache_warning") && get("apache_adaptor")) || (get("with_field_mask") && !get("with_reflection")) ||
 		(get("snake_style_json_tag") && get("lower_camel_style_json_tag")) || (!get("gen_json_tag") && get("always_gen_json_tag"))
 	key := "args:" + strings.Join(args, ",")
+	var input interface{} = args
+	if cmd {
+		key = "cmdline:go:" + strings.Join(args, ",")
+		input = map[string]interface{}{"g": "go:" + strings.Join(args, ",")}
+		if get("enable_nested_struct") && !tplGiven && mustReject == "" && !invalid {
+			tpl = "slim" // README: thriftgo automatically switches to slim if this option is set and no template is specified
+		}
+	}
 	if mustReject != "" {
 		if impl != "err" {
-			fail(vl.OracleFail{Key: key, What: "option list accepted although it must be rejected: " + mustReject, Input: args, Expected: "error", Observed: impl})
+			fail(vl.OracleFail{Key: key, What: "option list accepted although it must be rejected: " + mustReject, Input: input, Expected: "error", Observed: impl})
 		}
 		return res
 	}
 	if invalid {
 		if impl != "err" {
-			fail(vl.OracleFail{Key: key, What: "documented invalid combination accepted", Input: args, Expected: "error", Observed: impl})
+			fail(vl.OracleFail{Key: key, What: "documented invalid combination accepted", Input: input, Expected: "error", Observed: impl})
 		}
 		return res
 	}
 	if impl == "err" || impl == "panic" {
-		fail(vl.OracleFail{Key: key, What: "valid documented option list rejected", Input: args, Expected: "accepted", Observed: impl})
+		fail(vl.OracleFail{Key: key, What: "valid documented option list rejected", Input: input, Expected: "accepted", Observed: impl})
 		return res
 	}
 	tags := featureTags()
@@ -449,19 +557,31 @@ func (g *gen) oracle(args []string, impl string, cu *golang.CodeUtils) (res *vl.
 		}
 		if (bits[i] == '1') != want {
 			fail(vl.OracleFail{Key: key, What: fmt.Sprintf("feature %s is %v, the option list prescribes %v", n, bits[i] == '1', want),
-				Input: args, Expected: want, Observed: bits[i] == '1'})
+				Input: input, Expected: want, Observed: bits[i] == '1'})
 			return res
 		}
 	}
 	if cu.NamingStyle().Name() != style {
-		fail(vl.OracleFail{Key: key, What: "naming style differs from the one given", Input: args, Expected: style, Observed: cu.NamingStyle().Name()})
+		fail(vl.OracleFail{Key: key, What: "naming style differs from the one given", Input: input, Expected: style, Observed: cu.NamingStyle().Name()})
 	}
 	if cu.Template() != tpl {
-		fail(vl.OracleFail{Key: key, What: "template differs from the one given", Input: args, Expected: tpl, Observed: cu.Template()})
+		fail(vl.OracleFail{Key: key, What: "template differs from the one given", Input: input, Expected: tpl, Observed: cu.Template()})
+	}
+	var kv []string
+	for k, v := range repl {
+		kv = append(kv, vl.Hex(k)+"="+vl.Hex(v))
+	}
+	sort.Strings(kv)
+	wantRepl := "none"
+	if len(kv) > 0 {
+		wantRepl = strings.Join(kv, ",")
+	}
+	if got := replDump(cu); got != wantRepl {
+		fail(vl.OracleFail{Key: key, What: "import replacements differ from the use_package / thrift_import_path options given", Input: input, Expected: wantRepl, Observed: got})
 	}
 	if effInit(cu) != !ignoreInit {
 		fail(vl.OracleFail{Key: key, What: fmt.Sprintf("initialisms correction is %v although ignore_initialisms is %v (documented default false)", effInit(cu), ignoreInit),
-			Input: args, Expected: !ignoreInit, Observed: effInit(cu)})
+			Input: input, Expected: !ignoreInit, Observed: effInit(cu)})
 	}
 	return res
 }
@@ -576,8 +696,15 @@ func replay(repo, file string) error {
 	var doc struct {
 		Input []string `json:"input"`
 	}
+	var cdoc struct {
+		Input struct {
+			G string `json:"g"`
+		} `json:"input"`
+	}
 	if err := json.Unmarshal(b, &doc); err != nil {
-		return err
+		if err2 := json.Unmarshal(b, &cdoc); err2 != nil || !strings.HasPrefix(cdoc.Input.G, "go:") {
+			return err
+		}
 	}
 	dir, _ := os.MkdirTemp("", "c20replay")
 	defer os.RemoveAll(dir)
@@ -591,7 +718,11 @@ func replay(repo, file string) error {
 	for _, r := range rows {
 		g.rows[r.Name] = r
 	}
-	g.emit(doc.Input, "replay")
+	if cdoc.Input.G != "" {
+		g.emitCmd(strings.Split(strings.TrimPrefix(cdoc.Input.G, "go:"), ","), "replay")
+	} else {
+		g.emit(doc.Input, "replay")
+	}
 	g.out.Close()
 	js, _ := json.Marshal(g.out.Oracle)
 	fmt.Println(string(js))
